@@ -197,7 +197,16 @@ func (v Val) DeepString() string {
 
 // Neutral converts the parts of a value that need no generated types; glue
 // supplies conv for *token.Token and *errors.Error.
-func Neutral(x any, conv func(any) (Val, bool)) Val {
+func Neutral(x any, conv func(any) (Val, bool)) Val { return neutral(x, conv, 0) }
+
+// NeutralDepth is for glue code that converts nested values itself.
+func NeutralDepth(x any, conv func(any) (Val, bool), depth int) Val { return neutral(x, conv, depth) }
+
+func neutral(x any, conv func(any) (Val, bool), depth int) Val {
+	if depth > 300 {
+		// attribute values are finite trees; this deep means a value contains itself
+		return Val{Kind: "other", Other: "<cyclic or absurdly deep attribute value>"}
+	}
 	if x == nil {
 		return Val{Kind: "nil"}
 	}
@@ -211,7 +220,7 @@ func Neutral(x any, conv func(any) (Val, bool)) Val {
 		}
 		v := Val{Kind: "node", Tag: n.Tag}
 		for _, a := range n.Args {
-			v.Args = append(v.Args, Neutral(a, conv))
+			v.Args = append(v.Args, neutral(a, conv, depth+1))
 		}
 		return v
 	}
